@@ -23,7 +23,7 @@ Driver of the C13 model. One request per line, tokens separated by one space.
   ext <hint> type cbor         FieldType::extract                   -> ok value | err
   ext <hint> type cbor         Document::try_from, one field        -> ok value | err
   compat - newtype oldtype     FieldType::is_compatible_upgrade_of  -> true | false
- stateful (one current schema, a list of stored documents):
+ stateful (one current schema, a list of stored documents; `reset` -> ok forgets both):
   schema - <ver> <n> (name u0|u1 type)*n     SchemaBuilder, fields in add order   -> ok name:idx,… end=<watermark> | err
   upgrade - <ver> <n> (name u0|u1 type)*n    build, then upgrade_with(current)    -> same | err   (state kept on err)
   put <hint> <n> (name value)*n              set_id(1), set_field*, encode        -> ok <doc#> | err | err:ser
@@ -341,6 +341,7 @@ def storeDoc (fm : FloatModel) (st : St) (d : Doc) : St × String :=
 
 def docStep (st : St) (ws : List String) : Option (St × String) :=
   match ws with
+  | ["reset"] => some ({}, "ok")
   | "ext" :: hint :: rest => do
     let fm := drvFloat (← parseHint hint)
     let (ft, rest) ← parseType rest
@@ -390,12 +391,13 @@ def docStep (st : St) (ws : List String) : Option (St × String) :=
   | ["get", hint, k] => do
     let fm := drvFloat (← parseHint hint)
     let s ← st.schema
-    let d ← st.docs[(← k.toNat?)]?
-    match Doc.storeDecode fm d with
-    | none => pure (st, "err:de")
-    | some r => match tryFromDoc fm s r with
-      | none => pure (st, "err:read")
-      | some x => pure (st, showDoc x)
+    match st.docs[(← k.toNat?)]? with
+    | none => pure (st, "nodoc")
+    | some d => match Doc.storeDecode fm d with
+      | none => pure (st, "err:de")
+      | some r => match tryFromDoc fm s r with
+        | none => pure (st, "err:read")
+        | some x => pure (st, showDoc x)
   | _ => none
 
 end AndaVerif.DrvC13
